@@ -5,6 +5,8 @@
 import Spec.UpdatePositional
 import Proofs.C02PosFrame
 import Proofs.ValDecEq
+import Proofs.C02PosLocal
+import Proofs.C02Ext
 
 set_option linter.unusedSimpArgs false
 set_option linter.unusedVariables false
@@ -175,23 +177,6 @@ theorem posDomain_narrow {f : String} {filter : Fields} {q : Val} (hf : plainNam
 
 
 /-! ### one positional entry of an `_updaters` operator -/
-
-theorem updaterOf_positional {op : String} {u : Updater} (h : updaterOf op = some u) :
-    positionalOperators.contains op = true := by
-  simp only [updaterOf] at h
-  split at h
-  · rename_i e; subst e; decide +kernel
-  split at h
-  · rename_i e; subst e; decide +kernel
-  split at h
-  · rename_i e; subst e; decide +kernel
-  split at h
-  · rename_i e; subst e; decide +kernel
-  split at h
-  · rename_i e; subst e; decide +kernel
-  split at h
-  · rename_i e; subst e; decide +kernel
-  · cases h
 
 /-- **what the model does with `{op: {"f.$.x": v}}`** on the domain: the first element the
     condition applies to is handed to the updater; when there is none, the array itself is -/
@@ -544,5 +529,30 @@ theorem positional_push_first_match (filter : Fields) (key f l : String) (v now 
   rw [positional_push_impl filter key f l v now wi fs xs [("$elemMatch", q)] q hf hl hkey hdol hq
     (by simp [dget]) ha (subHolds q) (subHolds_applies hC01 hok)]
   cases xs.findIdx? (subHolds q) <;> rfl
+
+
+theorem positional_entry_reads_only_its_field (spec now : Val) (wi : Bool) (op key : String)
+    (v : Val) (u : Updater) (hop : posFieldsOp op wi = some u) (hdol : hasDollarPart key = true)
+    (fs gs : Fields) (hk : (dkeys fs).Nodup) (hk' : (dkeys gs).Nodup)
+    (hag : dget (headOf key) fs = dget (headOf key) gs) :
+    (∀ err, applyUpdate spec (.doc [(op, .doc [(key, v)])]) now wi (.doc fs) = .error err →
+      applyUpdate spec (.doc [(op, .doc [(key, v)])]) now wi (.doc gs) = .error err) ∧
+    (∀ fs', applyUpdate spec (.doc [(op, .doc [(key, v)])]) now wi (.doc fs) = .ok (.doc fs') →
+      ∃ gs', applyUpdate spec (.doc [(op, .doc [(key, v)])]) now wi (.doc gs) = .ok (.doc gs') ∧
+        dget (headOf key) fs' = dget (headOf key) gs') := by
+  have ha : Agree [headOf key] fs gs := by
+    intro k hkm
+    cases List.mem_singleton.mp hkm
+    rw [proj_of_nodup _ hk, proj_of_nodup _ hk', hag]
+  have hr := positional_entry_local spec now wi op key v u hop hdol fs gs ha
+  beta_reduce at hr
+  generalize applyUpdate spec (.doc [(op, .doc [(key, v)])]) now wi (.doc fs) = x at hr ⊢
+  generalize applyUpdate spec (.doc [(op, .doc [(key, v)])]) now wi (.doc gs) = y at hr ⊢
+  cases hr with
+  | err e0 => exact ⟨(fun err h => h), (fun fs' h => by cases h)⟩
+  | ok fs1 gs1 hag1 _ _ =>
+    refine ⟨(fun err h => by cases h), (fun fs' h => ?_)⟩
+    cases h
+    exact ⟨gs1, rfl, hag1.dget (List.mem_singleton.mpr rfl)⟩
 
 end MongoModel.Proofs.C02
